@@ -169,6 +169,8 @@ func (b *Buffer) SetCleanerConfig(config CleanerConfig) error {
 	defer b.mutex.Unlock()
 
 	b.cleaner = &config
+	// wake the cleanup goroutine, so the new config applies to what is already buffered
+	b.cond.Broadcast()
 
 	return nil
 }
